@@ -147,7 +147,7 @@ prop("C13",
          "The whole-graph statements (once per node, one result per shared "
          "node, no more distinct results than inputs) follow from these "
          "per-function contracts by the DAG inductions of DESIGN Appendix "
-         "A.1/A.2, argued on paper. Collections are enumerated with 0..3 "
+         "A.1 (machine-checked in Lean 4, lemmas/Memo.lean, thorough tier) and A.2 (argued on paper). Collections are enumerated with 0..3 "
          "entries. Mapper constructors and pymbolic's optimize_mapper output "
          "run as they are (the generated source is what is interpreted)."),
      technique="contract-based deductive verification: symbolic execution of "
@@ -160,7 +160,8 @@ prop("C13",
                       "int/array shape and index entries",
      trusted_base=["dataclasses.fields reflects the data model",
                    "dict/set semantics of CPython for hash-0 keys"],
-     assumptions=["composition lemmas A.1/A.2 (paper)"],
+     assumptions=["composition lemma A.2 (paper); A.1 is checked by Lean in "
+                  "the thorough tier"],
      unverified_surroundings=["mappers with bespoke state not in the "
                               "structural list (code generation mappers, "
                               "visualization)"])
@@ -210,7 +211,7 @@ prop("C20",
      level_note=(
          "Whole-graph statements (counts equal number of distinct nodes, "
          "topological order) follow by the inductions of DESIGN Appendix "
-         "A.1/A.5 (paper) from the per-function contracts. Shapes of the "
+         "A.1/A.5 (machine-checked in Lean 4, lemmas/Memo.lean, thorough tier) from the per-function contracts. Shapes of the "
          "children are enumerated as integer-valued and as array-valued "
          "(size-parameter) shapes."),
      technique="contract-based deductive verification: symbolic execution of "
@@ -221,7 +222,9 @@ prop("C20",
      structural_bound="every node kind; 2-3 entries per collection field; "
                       "int and array-valued child shapes",
      trusted_base=["dataclasses.fields reflects the data model"],
-     assumptions=["composition lemmas A.1/A.5 (paper)"],
+     assumptions=["the Lean model of lemmas/Memo.lean (memoisation contract "
+                  "+ child coverage over an abstract DAG) is what the "
+                  "per-node contracts establish"],
      unverified_surroundings=["_recursively_get_all_users (queue loop)"])
 
 prop("C01",
